@@ -55,9 +55,9 @@ Definition qpow (x y : Q) : rres :=
   if negb (Pos.eqb (Qden y) 1) then Err EStuck else
   match Qnum y with
   | Z0 => Ok (RNum 1%Q)
-  | Zpos p => if (Pos.to_nat p <=? 64)%nat then num (qpow_pos x (Pos.to_nat p)) else Err EStuck
+  | Zpos p => if Pos.leb p 64 then num (qpow_pos x (Pos.to_nat p)) else Err EStuck
   | Zneg p => if q_is_zero x then Err EZeroDiv
-              else if (Pos.to_nat p <=? 64)%nat then
+              else if Pos.leb p 64 then
                      (* the result must be representable, and so must the positive power
                         (CPython computes pow(x, -n) directly; both are exact or we do not predict) *)
                      match num (qpow_pos x (Pos.to_nat p)) with
